@@ -193,8 +193,8 @@ impl Property for C09 {
     }
     fn config(&self, tier: Tier) -> PropConfig {
         match tier {
-            Tier::Quick => PropConfig { cases: 16_000, max_tape: 300, shards: 8 },
-            Tier::Thorough => PropConfig { cases: 400_000, max_tape: 500, shards: 16 },
+            Tier::Quick => PropConfig { cases: 100000, max_tape: 300, shards: 12 },
+            Tier::Thorough => PropConfig { cases: 1600000, max_tape: 500, shards: 16 },
         }
     }
     fn prelude(&self, reg: &Registry, shard: u32, nshards: u32, tier: Tier, st: &mut Stats) -> CaseResult {
